@@ -6,6 +6,9 @@ ALL ordered pairs are compared; every public list-returning accessor is mutated;
 """
 from __future__ import annotations
 
+import sys
+import subprocess
+import os
 import itertools
 import pickle
 import warnings
@@ -221,6 +224,9 @@ def plan(tier):
             shards.append({"kind": "pairs", "cat": cat, "part": p, "parts": parts})
         shards.append({"kind": "objects", "cat": cat})
     shards.append({"kind": "services"})
+    for cat in CATEGORIES:
+        for seed in (1, 4242):
+            shards.append({"kind": "xproc", "cat": cat, "seed": seed})
     return shards
 
 
@@ -234,6 +240,8 @@ def cases(shard, tier):
         c = catalogue(shard["cat"], tier)
         for i in range(len(c)):
             yield {"kind": "object", "cat": shard["cat"], "i": i, "tier": tier}
+    elif shard["kind"] == "xproc":
+        yield {"kind": "xproc", "cat": shard["cat"], "seed": shard["seed"], "tier": tier}
     else:
         yield {"kind": "services"}
 
@@ -391,7 +399,41 @@ def check_services(case, R):
                     R.violation("accessor-exposes-internal-list:CompositeType.%s" % name, "lists returned by accessors are copies", {"kind": "services", "a": repr(d), "accessor": name})
 
 
+def xproc_produce(cat, tier):
+    """Runs in ANOTHER interpreter (different string hash seed): builds, uses and pickles the whole catalogue."""
+    objs = [make(cat, d) for d in catalogue(cat, tier)]
+    for x in objs:
+        _ = (hash(x), str(x), x == x, {x: 1})
+    sys.stdout.buffer.write(pickle.dumps(objs))
+
+
+def check_xproc(case, R):
+    """Pickles made by an interpreter with another hash seed (a build cache, a spawned worker) load as equal values with equal hashes."""
+    cat, tier = case["cat"], case["tier"]
+    env = dict(os.environ, PYTHONHASHSEED=str(case["seed"]), PYTHONPATH=str(engine.VERIF))
+    code = "from mc import engine; engine.bind_repo(); from mc.checks import c18; c18.xproc_produce(%r, %r)" % (cat, tier)
+    p = subprocess.run([sys.executable, "-c", code], env=env, capture_output=True, cwd=str(engine.VERIF), timeout=600)
+    if p.returncode != 0:
+        raise RuntimeError("cross-process producer failed: " + p.stderr.decode(errors="replace")[-800:])
+    loaded = pickle.loads(p.stdout)
+    descs = catalogue(cat, tier)
+    assert len(loaded) == len(descs)
+    for d, y in zip(descs, loaded):
+        R.case([cat, d, "xproc", case["seed"]], nontrivial=True, sample=False)
+        x = make(cat, d)
+        R.outcome("xproc-pickled")
+        one = {**case, "desc": d}
+        if not (y == x) or not (x == y) or obs(cat, y) != obs(cat, x) or str(y) != str(x):
+            R.violation("pickle-roundtrip-across-processes:" + cat, "pickling round-trips to an equal object with identical string form, attributes and layout", one, observed=[str(y), safe_eq(y, x)], expected=str(x))
+            return
+        if hash(y) != hash(x) or {x: 1}.get(y) != 1:
+            R.violation("equal-but-different-hash:unpickled-in-another-process:" + cat, "equal objects have equal hashes (an unpickled object equals the locally built one)", one, observed=[hash(y), hash(x)], expected="equal hashes")
+            return
+
+
 def check_case(case, R):
+    if case["kind"] == "xproc":
+        return check_xproc(case, R)
     if case["kind"] == "row":
         check_row(case, R)
     elif case["kind"] == "object":
